@@ -350,6 +350,23 @@ def run(chk, repo):
         fn = repo.find(LS, q)
         tees = [n for n in own_nodes(fn) if isinstance(n, ast.Assign) and isinstance(n.value, ast.Call)
                 and canon_call(mod, n.value) == "itertools.tee"]
+        if not tees:
+            # tee(X) used in place - tee(X)[1], tee(X)[-1]: no name is left to put back where X was
+            inline = [n for n in own_nodes(fn) if isinstance(n, ast.Call) and canon_call(mod, n) == "itertools.tee"
+                      and n.args and isinstance(getattr(n, "_parent", None), ast.Subscript) and n._parent.value is n]
+            persistent = [n for n in inline if unparse(n.args[0]).startswith("self.")]
+            if persistent and len(persistent) == len(inline):
+                n0 = persistent[0]
+                own_ = unparse(n0.args[0])
+                stores = [a_ for a_ in own_nodes(fn) if isinstance(a_, ast.Assign) and any(unparse(x) == own_ for x in a_.targets)
+                          and (a_.lineno, a_.col_offset) > (n0.lineno, n0.col_offset)]
+                if not stores:
+                    chk.bad("C03.tee", W(q), "owner %s rebound to one tee output" % own_,
+                            "%s is tee'd in place (%s) and stays where it was: the original iterator keeps being consumed "
+                            "behind the tee, so what the copy reads is taken away from the stream (itertools: once tee() "
+                            "has made a split, the original iterable should not be used anywhere else)"
+                            % (own_, short(n0._parent)), node=n0)
+                    continue
         chk.require(len(tees) == 1, "%s: tee idiom not recognised (%d itertools.tee assignments)" % (q, len(tees)))
         t = tees[0]
         tgt = t.targets[0]
@@ -403,6 +420,13 @@ def run(chk, repo):
         raises_ = any(isinstance(s_, ast.Raise) or (isinstance(s_, ast.Expr) and unparse(s_.value) == "iter(self)")
                       or (isinstance(s_, ast.Return) and s_.value is not None and unparse(s_.value) in ("iter(self)", "Stream(iter(self))"))
                       for s_ in lf.stmts)
+        if pol is False:
+            # what runs before the statement that raises (iter(self) on a hub without copies is the IndexError)
+            first_raise = [i_ for i_, s_ in enumerate(lf.stmts) if isinstance(s_, ast.Raise) or (
+                isinstance(s_, ast.Expr) and unparse(s_.value) == "iter(self)")]
+            if first_raise:
+                has_tee = any(isinstance(n, ast.Call) and canon_call(mod, n) == "itertools.tee"
+                              for s_ in lf.stmts[:first_raise[0]] for n in ast.walk(s_))
         if pol is True or (pol is None and has_tee):
             chk.decide(has_tee and isinstance(lf.stmts[-1], ast.Return), "C03.tee", W("StreamTeeHub.copy"),
                        "copies left: " + "; ".join(short(s_) for s_ in lf.stmts)[:120],
@@ -427,9 +451,22 @@ def run(chk, repo):
     chk.decide(good, "C03.hub", W("StreamTeeHub.__init__"), "tee count: " + short(t),
                why="a hub built for n uses must hold exactly n copies", node=t)
     stored = [n for n in own_nodes(init) if isinstance(n, ast.Assign) and unparse(n.targets[0]) == "self._iters"]
-    chk.decide(len(stored) == 1 and t in list(ast.walk(stored[0].value)), "C03.hub", W("StreamTeeHub.__init__"),
-               "self._iters holds the tee outputs: " + (short(stored[0]) if stored else "<none>"),
-               why="the copies handed out must be the tee outputs", node=init)
+    def _single_use_arm(a_):
+        """[source] stored under 'n == 1': one use needs no split - the source iterator is that use"""
+        v_ = a_.value
+        if not (isinstance(v_, ast.List) and len(v_.elts) == 1 and unparse(v_.elts[0]) == unparse(t.args[0])):
+            return False
+        par_ = getattr(a_, "_parent", None)
+        if not isinstance(par_, ast.If):
+            return False
+        tx_ = unparse(par_.test)
+        one, other = ("%s == 1" % ip[2], "1 == %s" % ip[2]), ("%s != 1" % ip[2], "1 != %s" % ip[2], "%s > 1" % ip[2])
+        return (tx_ in one and a_ in par_.body) or (tx_ in other and a_ in par_.orelse)
+    with_tee = [a_ for a_ in stored if t in list(ast.walk(a_.value))]
+    chk.decide(len(with_tee) == 1 and all(a_ in with_tee or _single_use_arm(a_) for a_ in stored), "C03.hub",
+               W("StreamTeeHub.__init__"),
+               "self._iters holds the tee outputs: " + ("; ".join(short(a_) for a_ in stored) if stored else "<none>"),
+               why="the copies handed out must be the tee outputs (for a single use: the source itself)", node=init)
     # the source of the tee is the raw iterator that Stream.__init__ built from data (super call first)
     ibody = docstring_free(init.body)
 
